@@ -3,6 +3,7 @@ import AslModel.Rc
 import Gen.ShapesGen
 import AslModel.RcCompile
 import AslModel.RcNest
+import AslModel.RcOrders
 /-! Model driver for C12: compiles a scenario's thread programs into atomic steps using the *recorded*
 operation shapes (`Gen/ShapesGen.lean`), enumerates all interleavings in the same depth-first order as
 the scheduler harness and prints the same summary line. -/
@@ -137,13 +138,20 @@ def kindAcquiresFirst (k : Kind) : Bool :=
     | Ev.unknown => none
   AslModel.RcNest.incsFirst (kinds k.assignDiffLast) && AslModel.RcNest.incsFirst (kinds k.assignDiff)
 
+/-- the statement order of the kind's copy assignment, as regenerated from the source -/
+def kindOrder (name : String) : AslModel.RcNest.Order :=
+  match (Gen.Shapes.assignOrders.find? (·.1 == name)).map (·.2) with
+  | some Gen.Shapes.Ord.shared => AslModel.RcNest.Order.shared
+  | some Gen.Shapes.Ord.smart => AslModel.RcNest.Order.smart
+  | _ => AslModel.RcNest.Order.array
+
 open AslModel.RcNest in
 def nest (kind descr roots ops : String) : String :=
   match findKind kind, (descr.splitOn "/").mapM (parseNats · ","), parseNats roots ",",
         (if ops == "-" then some [] else (ops.splitOn ";").mapM parseOp) with
   | some k, some d, some r, some os =>
     if !wfDescr d r then "bad-op" else
-    let h := runOps (kindAcquiresFirst k) (build d r) os
+    let h := if kindAcquiresFirst k then runOpsOrd (kindOrder kind) (build d r) os else runOps false (build d r) os
     let fr (h : Heap) : String := commaList ((List.range d.length).map fun b => if aliveAt h b then 0 else 1)
     let hEnd := (List.range h.roots.length).foldl (fun h _ => dropRoot h) h
     if h.bad || hEnd.bad then "MODEL-BAD: released storage is used"
